@@ -1,0 +1,136 @@
+//go:build verif
+
+package pool
+
+// Verification hook (build tag verif): release-time poisoning, quarantine and canary check of
+// pooled buffers, plus an event trace of get/release operations. Disabled unless VerifPoison(true)
+// was called, so builds with the tag behave like normal builds by default.
+
+import (
+	"sync"
+	"sync/atomic"
+	"unsafe"
+
+	"github.com/IrineSistiana/bytespool"
+)
+
+const (
+	verifPoisonByte = 0xEE // written over a buffer when it is released
+	verifDirtyByte  = 0xA5 // written over a buffer when it is handed out
+	verifQuarantine = 8192 // number of released buffers kept out of the pool
+)
+
+type VerifPoolReport struct {
+	Gets, Releases    uint64
+	DoubleRelease     uint64 // released while still in quarantine (released twice)
+	ForeignRelease    uint64 // released but never obtained from GetBuf (only counted for pool-sized buffers)
+	WriteAfterRelease uint64 // poison pattern damaged while the buffer was in quarantine
+	Trace             []VerifPoolEvent
+}
+
+type VerifPoolEvent struct {
+	Get bool
+	Buf uintptr // identity of the backing array
+}
+
+var (
+	verifEnabled atomic.Bool
+	verifMu      sync.Mutex
+	verifLive    = map[uintptr]struct{}{} // handed out, not yet released
+	verifQ       []Buffer                 // quarantine, FIFO
+	verifQSet    = map[uintptr]struct{}{}
+	verifRep     VerifPoolReport
+	verifTraceN  int
+)
+
+// VerifPoison switches the hook on or off. traceLen is the maximum number of events recorded.
+func VerifPoison(on bool, traceLen int) {
+	verifMu.Lock()
+	defer verifMu.Unlock()
+	verifEnabled.Store(on)
+	verifTraceN = traceLen
+	if !on {
+		verifDrainLocked(0)
+	}
+}
+
+// VerifPoolTake returns the report collected so far and resets it. It checks the canaries of
+// everything still in quarantine first.
+func VerifPoolTake() VerifPoolReport {
+	verifMu.Lock()
+	defer verifMu.Unlock()
+	for _, b := range verifQ {
+		verifCheckLocked(b)
+	}
+	r := verifRep
+	verifRep = VerifPoolReport{}
+	return r
+}
+
+func verifID(b Buffer) uintptr { return uintptr(unsafe.Pointer(unsafe.SliceData(b))) }
+
+func verifOnGet(b Buffer) {
+	if !verifEnabled.Load() || cap(b) == 0 {
+		return
+	}
+	full := b[:cap(b)]
+	for i := range full {
+		full[i] = verifDirtyByte
+	}
+	verifMu.Lock()
+	verifRep.Gets++
+	verifLive[verifID(b)] = struct{}{}
+	if len(verifRep.Trace) < verifTraceN {
+		verifRep.Trace = append(verifRep.Trace, VerifPoolEvent{Get: true, Buf: verifID(b)})
+	}
+	verifMu.Unlock()
+}
+
+func verifOnRelease(b Buffer) bool {
+	if !verifEnabled.Load() || cap(b) == 0 {
+		return false
+	}
+	id := verifID(b)
+	verifMu.Lock()
+	defer verifMu.Unlock()
+	verifRep.Releases++
+	if len(verifRep.Trace) < verifTraceN {
+		verifRep.Trace = append(verifRep.Trace, VerifPoolEvent{Get: false, Buf: id})
+	}
+	if _, dup := verifQSet[id]; dup {
+		verifRep.DoubleRelease++
+		return true // keep the first copy in quarantine, drop this one
+	}
+	if _, ok := verifLive[id]; !ok {
+		// obtained before the hook was switched on, or not from GetBuf
+		verifRep.ForeignRelease++
+	}
+	delete(verifLive, id)
+	full := b[:cap(b)]
+	for i := range full {
+		full[i] = verifPoisonByte
+	}
+	verifQ = append(verifQ, full)
+	verifQSet[id] = struct{}{}
+	verifDrainLocked(verifQuarantine)
+	return true
+}
+
+func verifCheckLocked(b Buffer) {
+	for _, x := range b {
+		if x != verifPoisonByte {
+			verifRep.WriteAfterRelease++
+			return
+		}
+	}
+}
+
+func verifDrainLocked(keep int) {
+	for len(verifQ) > keep {
+		b := verifQ[0]
+		verifQ = verifQ[1:]
+		verifCheckLocked(b)
+		delete(verifQSet, verifID(b))
+		bytespool.Release(b)
+	}
+}
